@@ -187,7 +187,7 @@ def pushInvocation (ms : MacroState) : AM Unit := do
   | some cur, some cwd =>
     set { s with sources := .mac ms :: cur :: s.sources, cwds := cwd :: cwd :: s.cwds,
                  source := none, cwd := none }
-  | _, _ => throw ⟨.crash "token_source.take().unwrap()", ms.loc⟩
+  | _, _ => eoiErr          -- nothing left to come back to: `suspend_token_source` reports the end of input
 
 def showSymbol (n : String) : String := display Gen.symbolDisplay n
 
@@ -293,7 +293,7 @@ def peekF : Nat → AM (Option LTok)
                 set { s with sources := .lex lx (some loc) :: cur :: s.sources,
                              cwds := cwd :: cwd :: s.cwds, source := none, cwd := none }
                 peekF f
-              | _, _ => fail (.crash "token_source.take().unwrap()") loc
+              | _, _ => eoiErr
             | some t => fail .unexpected t.loc
           | some ⟨.dir "Each", loc⟩ =>
             let states ← eachF f loc
@@ -305,7 +305,7 @@ def peekF : Nat → AM (Option LTok)
                            cwds := (states.map fun _ => cwd) ++ cwd :: s.cwds,
                            source := none, cwd := none }
               peekF f
-            | _, _ => fail (.crash "token_source.take().unwrap()") loc
+            | _, _ => eoiErr
           | some ⟨.dir "Hex", loc⟩ =>
             let ms ← numberDirF f loc 16
             pushInvocation ms
